@@ -327,6 +327,12 @@ pub fn narrow_selection(sel: &Map<String, Value>, ch: &mut Choices) -> Map<Strin
                     let keep = ch.pick(a.len() + 1);
                     Some(Value::Array(a[..keep].iter().map(|v| narrow(v, ch).unwrap_or(Value::Bool(false))).collect()))
                 }
+                // shortened by exactly one entry / to as many entries as are still selected
+                4 if !a.is_empty() => Some(Value::Array(a[..a.len() - 1].iter().map(|v| narrow(v, ch).unwrap_or(Value::Bool(false))).collect())),
+                3 if !a.is_empty() => {
+                    let keep = a.iter().filter(|v| !matches!(v, Value::Bool(false) | Value::Null)).count();
+                    Some(Value::Array(a[..keep].to_vec()))
+                }
                 _ => Some(Value::Array(a.iter().map(|v| narrow(v, ch).unwrap_or(Value::Bool(false))).collect())),
             },
             other => Some(other.clone()),
